@@ -99,7 +99,9 @@ class JobControl:
         return self._active_agent
 
     def is_running(self, name) -> bool:
-        if self._active_agent is not None and self._active_agent.name == name:
+        # One read of _active_agent: it can become None between two reads.
+        agent = self._active_agent
+        if agent is not None and agent.name == name:
             return True
         return name in self._background
 
